@@ -36,7 +36,7 @@ Every atomic section that the model has an op for appends one line to the op log
 it happens*; asyncio runs the code between two awaits atomically, so the log order is the real
 interleaving. The log is what the Lean model replays.
 """
-import collections, logging
+import collections, contextvars, logging
 import anyio
 from nintendo.nex import rmc, common, settings as nexsettings
 
@@ -147,13 +147,20 @@ class FakeServer:
         sim.log("hookret")
 
 
+# the connection whose receive loop is running in the current task (set inside that task: every task has a context of
+# its own, so with several live connections in one process each warning is attributed to the connection that logged it)
+_cur_sim = contextvars.ContextVar("c10_current_connection", default=None)
+
+
 class _WarnCounter(logging.Handler):
     def __init__(self):
         super().__init__(level=logging.WARNING)
         self.invalid = 0
     def emit(self, record):
         if record.levelno == logging.WARNING and "invalid call id" in record.getMessage():
-            self.invalid += 1
+            sim = _cur_sim.get()
+            if sim is not None: sim.invalid += 1
+            else: self.invalid += 1
 
 _handler = _WarnCounter()
 _lg = logging.getLogger("nintendo.nex.rmc")
@@ -203,7 +210,7 @@ class FakePRUDP:
                     raise anyio.EndOfStream
                 item, addressee = item
                 self.sim.log("recv " + hx(item))
-                self.sim.recv_marks.append((len(self.sim.oplog) - 1, _handler.invalid))
+                self.sim.recv_marks.append((len(self.sim.oplog) - 1, self.sim.invalid))
                 if addressee is not None:
                     self.sim.recv_addr[len(self.sim.oplog) - 1] = addressee
                 return item
@@ -240,7 +247,13 @@ class Sim:
         self.skipped_ans = 0
         self.dispatches = []    # (oplog index of the op during which handle() of a server was entered, server idx, method, body hex)
         self.sends_at = []      # (oplog index, datagram hex) of everything sent that is not a caller's request
+        self.invalid = 0        # "invalid call id" warnings logged by this connection's receive loop
+        self.conn = 0           # number of this connection among the live connections of the process (run_multi)
+        self.glog = None        # run_multi: the schedule of the whole process, (connection, index in its op log) in real order
+        self.settings = S
     def log(self, line):
+        if self.glog is not None:
+            self.glog.append((self.conn, len(self.oplog)))
         self.oplog.append(line)
     def eof(self):
         # recv() is about to raise EndOfStream: start() will call cleanup()
@@ -277,6 +290,7 @@ async def _caller(sim, client, noresp, send_yields):
 
 
 async def _loop(sim, client, servers):
+    _cur_sim.set(sim)
     try:
         await client.start(servers)
         sim.loop_result = "returned"
@@ -309,69 +323,124 @@ async def _closer(sim, client, kind):
         sim.cleanup_status = "returned" if rec[1] == "returned" else "raised"
 
 
-async def run_scenario(sc):
-    """runs one scenario on the real code; returns the Sim (op log, callers, final white-box state)"""
-    sim = Sim(sc)
-    fake = FakePRUDP(sim)
-    client = rmc.RMCClient(S, fake)
-    client.call_id = sc.get("start_id", 1)
-    sim.client = client
-    servers = [FakeServer(sim, i, h) for i, h in enumerate(sc.get("servers", []))]
-    spawn = sc.get("spawn_close", 0)
-    w0 = _handler.invalid
-    async with anyio.create_task_group() as tg:
-        tg.start_soon(_loop, sim, client, servers)
-        for st in sc["steps"]:
-            k = st[0]
-            if k == "start":
-                tg.start_soon(_caller, sim, client, st[1], st[2])
-            elif k == "yield":
-                for _ in range(st[1]):
-                    await anyio.sleep(0)
-            elif k == "resp":
-                fake.inbox.append((build_resp(st[1], st[2], st[3]), None)); fake._kick()
-            elif k == "ans":
-                t = st[1]
-                if t < len(sim.callers) and sim.callers[t]["sent_id"] is not None:
-                    fake.inbox.append((build_ans(sim.callers[t]["sent_id"], t, st[2], st[3]), t)); fake._kick()
-                else:
-                    sim.skipped_ans += 1
-            elif k == "raw":
-                fake.inbox.append((bytes.fromhex(st[1]) if st[1] != "-" else b"", None)); fake._kick()
-            elif k == "req":
-                fake.inbox.append((rmc.RMCMessage.request(S, st[1], st[2], st[3], b"").encode(), None)); fake._kick()
-            elif k == "preq":
-                fake.inbox.append((build_preq(st[1], st[2], st[3], st[4]), None)); fake._kick()
-            elif k == "eof":
-                fake.inbox.append(EOF); fake._kick()
-            elif k in ("close", "disconnect", "cleanup"):
-                if spawn:
-                    tg.start_soon(_closer, sim, client, k)
-                else:
-                    await _closer(sim, client, k)
+class Conn:
+    """one live connection: its own settings object, transport, RMCClient, servers and records — nothing of it is
+    shared with any other connection of the process"""
+    def __init__(self, sc, conn=0, glog=None, own_settings=False):
+        self.sc = sc
+        self.sim = sim = Sim(sc)
+        sim.conn, sim.glog = conn, glog
+        if own_settings:
+            sim.settings = nexsettings.default()
+        self.fake = FakePRUDP(sim)
+        self.client = rmc.RMCClient(sim.settings, self.fake)
+        self.client.call_id = sc.get("start_id", 1)
+        sim.client = self.client
+        self.servers = [FakeServer(sim, i, h) for i, h in enumerate(sc.get("servers", []))]
+        self.spawn = sc.get("spawn_close", 0)
+
+    def start(self, tg):
+        tg.start_soon(_loop, self.sim, self.client, self.servers)
+
+    async def step(self, tg, st):
+        sim, fake, client = self.sim, self.fake, self.client
+        k = st[0]
+        if k == "start":
+            tg.start_soon(_caller, sim, client, st[1], st[2])
+        elif k == "yield":
+            for _ in range(st[1]):
+                await anyio.sleep(0)
+        elif k == "resp":
+            fake.inbox.append((build_resp(st[1], st[2], st[3]), None)); fake._kick()
+        elif k == "ans":
+            t = st[1]
+            if t < len(sim.callers) and sim.callers[t]["sent_id"] is not None:
+                fake.inbox.append((build_ans(sim.callers[t]["sent_id"], t, st[2], st[3]), t)); fake._kick()
             else:
-                raise ValueError(st)
-        # let everything settle: the receive loop waits in every request handler and in every slow answer send
+                sim.skipped_ans += 1
+        elif k == "raw":
+            fake.inbox.append((bytes.fromhex(st[1]) if st[1] != "-" else b"", None)); fake._kick()
+        elif k == "req":
+            fake.inbox.append((rmc.RMCMessage.request(S, st[1], st[2], st[3], b"").encode(), None)); fake._kick()
+        elif k == "preq":
+            fake.inbox.append((build_preq(st[1], st[2], st[3], st[4]), None)); fake._kick()
+        elif k == "eof":
+            fake.inbox.append(EOF); fake._kick()
+        elif k in ("close", "disconnect", "cleanup"):
+            if self.spawn:
+                tg.start_soon(_closer, sim, client, k)
+            else:
+                await _closer(sim, client, k)
+        else:
+            raise ValueError(st)
+
+    def settle_yields(self):
+        # the receive loop waits in every request handler and in every slow answer send
+        sc = self.sc
         ry = sc.get("reply_yields", 0)
-        slow = sum(((st[2] >> 4) & 15) + ry + 1 for st in sc["steps"] if st[0] == "preq") + sum(ry + 1 for st in sc["steps"] if st[0] == "req")
-        for _ in range(FINAL_YIELDS + slow):
-            await anyio.sleep(0)
-        # white-box snapshot before tearing the tasks down
+        return (sum(((st[2] >> 4) & 15) + ry + 1 for st in sc["steps"] if st[0] == "preq")
+                + sum(ry + 1 for st in sc["steps"] if st[0] == "req"))
+
+    def snapshot(self):
+        """white-box snapshot before the tasks are torn down"""
+        sim, fake, client = self.sim, self.fake, self.client
         sim.final = {
             "next": client.call_id, "closed": int(client.closed),
             "requests": sorted(client.requests.keys()), "responses": sorted(client.responses.keys()),
             "hung": [c["task"] for c in sim.callers if c["outcome"] is None],
             "loop": sim.loop_result, "undelivered": len(fake.inbox),
             "cleanup_status": sim.cleanup_status, "closures": [list(r) for r in sim.closures],
-            "nservers": len(servers),
+            "nservers": len(self.servers),
         }
         # per recv line: did the loop warn about an invalid call id while processing it?
         marks = sim.recv_marks
         for i, (idx, before) in enumerate(marks):
-            after = marks[i + 1][1] if i + 1 < len(marks) else _handler.invalid
+            after = marks[i + 1][1] if i + 1 < len(marks) else sim.invalid
             sim.warn_after[idx] = after - before
+
+
+async def run_scenario(sc):
+    """runs one scenario on the real code; returns the Sim (op log, callers, final white-box state)"""
+    conn = Conn(sc)
+    async with anyio.create_task_group() as tg:
+        conn.start(tg)
+        for st in sc["steps"]:
+            await conn.step(tg, st)
+        for _ in range(FINAL_YIELDS + conn.settle_yields()):
+            await anyio.sleep(0)
+        conn.snapshot()
         tg.cancel_scope.cancel()
-    return sim
+    return conn.sim
+
+
+async def run_multi_scenario(msc):
+    """several live connections in ONE process (one event loop, one task group, as in BackEndClient.login or a server):
+    msc = {"multi": [scenario of connection 0, scenario of connection 1, ...], "order": [c, c, ...]}; the k-th entry of
+    "order" executes the next step of connection order[k] (steps left over run afterwards, connection by connection).
+    A "yield" step lets the tasks of ALL connections run. Every connection has its own settings, transport, client,
+    servers and op log; `glog` (harness bookkeeping only) records the real order of the atomic sections of the process.
+    Returns the list of Sims; sims[0].glog is the schedule."""
+    glog = []
+    conns = [Conn(sc, i, glog, own_settings=True) for i, sc in enumerate(msc["multi"])]
+    async with anyio.create_task_group() as tg:
+        for c in conns:
+            c.start(tg)
+        nxt = [0] * len(conns)
+        order = list(msc.get("order", []))
+        for i, c in enumerate(conns):
+            order += [i] * len(c.sc["steps"])
+        for ci in order:
+            c = conns[ci]
+            if nxt[ci] < len(c.sc["steps"]):
+                st = c.sc["steps"][nxt[ci]]
+                nxt[ci] += 1
+                await c.step(tg, st)
+        for _ in range(FINAL_YIELDS + sum(c.settle_yields() for c in conns)):
+            await anyio.sleep(0)
+        for c in conns:
+            c.snapshot()
+        tg.cancel_scope.cancel()
+    return [c.sim for c in conns]
 
 
 def run_many(scenarios):
@@ -379,5 +448,15 @@ def run_many(scenarios):
         res = []
         for sc in scenarios:
             res.append(await run_scenario(sc))
+        return res
+    return anyio.run(main)
+
+
+def run_many_multi(mscs):
+    """-> one list of Sims per multi-connection scenario"""
+    async def main():
+        res = []
+        for msc in mscs:
+            res.append(await run_multi_scenario(msc))
         return res
     return anyio.run(main)
